@@ -74,6 +74,10 @@ def _classify(name, case, msg):
     t = np.dtype(case["idx_dtype"])
     shape = case["shape"]
     wrong = msg.startswith(WRONG_VALUE)
+    # uint64 index arrays: given by the user, or chosen by the library itself — np.min_scalar_type(n) is uint64 for n >= 2**32, so an
+    # operation that flattens an array of 2**32 or more elements whose coordinates are narrower than 64 bits continues in uint64
+    size = _prod(shape)
+    via_uint64 = t == np.uint64 or (size >= 2 ** 32 and not fits(t, size))
     m_over = re.match(r"raised OverflowError: Python integer (-?\d+) out of bounds for (u?int\d+)", msg)
 
     # F-getitem-step: Excluded_getitem — the slice step is not representable in the coordinates' dtype
@@ -91,7 +95,7 @@ def _classify(name, case, msg):
     # F-invidx-dtype: Excluded_invidx — more stored elements than the coordinates' dtype counts
     if fam == "reduce" and case["nnz"] > np.iinfo(t).max and (wrong or re.match(r"raised IndexError: index -?\d+ out-of-bounds in \w+\.reduceat", msg)):
         return "F-invidx-dtype"
-    if t == np.uint64 and "Cannot cast array data from dtype('uint64') to dtype('int64') according to the rule 'safe'" in msg and fam in (
+    if via_uint64 and "Cannot cast array data from dtype('uint64') to dtype('int64') according to the rule 'safe'" in msg and fam in (
             "reduce", "gcxs-reduce", "product", "gcxs-product", "sort", "elemwise"):
         # inv_idx in uint64 is refused by ufunc.reduceat (rule R6): the same site, unsigned 64-bit flavour
         return "F-invidx-dtype"
@@ -128,7 +132,7 @@ def _classify(name, case, msg):
     if fam == "numba" and case["scenario"].startswith("coordsfit") and not fits(t, max(shape)):
         return "F-numba-shape"
     # F-uint64: Excluded_uint64 — NumPy promotes uint64 with intp to float64; the library then indexes with floats
-    if t == np.uint64 and any(p in msg for p in (
+    if via_uint64 and any(p in msg for p in (
             "only int indices permitted", "coords dtype float64", "indptr/indices dtype", "TypingError", "only integers, slices",
             "arrays used as indices must be of integer", "Cannot cast array data from dtype('uint64')", "Cannot cast array data from dtype('float64')",
             "'NoneType' object has no attribute 'args'", "cannot be safely cast", "float64")):
